@@ -145,17 +145,24 @@ func H_C16_restart() {
 // (ActionSucceeded / ActionFailed) leads to a state of higher rank, and retries keep the state: actions
 // cannot loop.  (Pure table walk: no symbolic input.)
 func H_C16_rankRespectsTables() {
+	increase, retry, n := true, true, 0
 	for role := 0; role < 4; role++ {
 		for st, def := range vStatesOf(role) {
 			for ev, next := range def.Events {
 				switch ev {
 				case Event_ActionSucceeded, Event_ActionFailed:
-					zzverif.Assert(vRank(next) > vRank(st) && vRank(st) >= 0, "C16.action_results_increase_rank")
+					n++
+					if !(vRank(next) > vRank(st) && vRank(st) >= 0) {
+						increase = false
+					}
 				case Event_OnRetry:
-					zzverif.Assert(next == st, "C16.retry_keeps_state")
+					if next != st {
+						retry = false
+					}
 				}
 			}
 		}
 	}
-	zzverif.Reach("c16.tables_walked")
+	zzverif.Assert(increase && n > 40, "C16.action_results_increase_rank")
+	zzverif.Assert(retry, "C16.retry_keeps_state")
 }
